@@ -205,6 +205,14 @@ func init() {
 		})
 	})
 	// heap file -> LoadTOASTTable -> ReadValue(pointer bytes)
+	register("TableReadValueReload", func(a []string) string {
+		return withBuf(a[1], a[2], func(b []byte) string {
+			rd := pgdump.NewTOASTReader()
+			rd.LoadTOASTTable(c08U32(a[0]), b)
+			rd.LoadTOASTTable(c08U32(a[0]), b)
+			return c08Val(rd.ReadValue(unhex(a[3])))
+		})
+	})
 	register("TableReadValue", func(a []string) string {
 		return withBuf(a[1], a[2], func(b []byte) string {
 			rd := pgdump.NewTOASTReader()
